@@ -527,6 +527,10 @@ class World:
             self.pending_registrations.append((d, alias, x))
         return d
 
+    def b_dsref(self, t):
+        # only meaningful inside late_overloads (built by start(), when every named dataset exists)
+        return self.datasets[t[1]][1]
+
     def b_dswo(self, t):
         k = repr(t)
         if k not in self.nodes:
